@@ -607,16 +607,19 @@ func (e *Env) modTargets(m string) (locs []*Loc, fams []string) {
 // syntactic may-modify sets
 
 var modSetMemo = map[*ssa.Function]map[string]bool{}
+var modSetBusy = map[*ssa.Function]bool{}
 
 func (vc *VC) modSet(fn *ssa.Function, onpath map[*ssa.Function]bool) map[string]bool {
 	if m, ok := modSetMemo[fn]; ok {
 		return m
 	}
-	if onpath[fn] {
+	if onpath[fn] || modSetBusy[fn] {
 		return map[string]bool{}
 	}
 	onpath[fn] = true
+	modSetBusy[fn] = true
 	defer delete(onpath, fn)
+	defer delete(modSetBusy, fn)
 	set := map[string]bool{}
 	for _, b := range fn.Blocks {
 		vc.modSetBlock(fn, b, set, onpath)
